@@ -94,15 +94,20 @@ Fixpoint valid_loop (p : list byte) : bool :=
           end
   end.
 
-(* the fast path: skip 8 bytes at a time while all of them are ASCII.  The Go code
-   assembles two little-endian uint32 and tests (first32|second32)&0x80808080 != 0,
-   which holds iff one of the eight bytes is >= 0x80; that is what is modelled. *)
+(* the fast path: skip 8 bytes at a time while all of them are ASCII.
+     first32 := uint32(p[0]) | uint32(p[1])<<8 | uint32(p[2])<<16 | uint32(p[3])<<24
+     second32 := uint32(p[4]) | ... | uint32(p[7])<<24
+     if (first32|second32)&0x80808080 != 0 { break }
+   (a byte shifted left by at most 24 stays below 2^32, so uint32 never wraps here) *)
 Definition ascii (b : byte) : bool := b2n b <? 0x80.
+Definition le32 (b0 b1 b2 b3 : byte) : N :=
+  N.lor (N.lor (N.lor (b2n b0) (N.shiftl (b2n b1) 8)) (N.shiftl (b2n b2) 16)) (N.shiftl (b2n b3) 24).
+Definition has_high8 (b0 b1 b2 b3 b4 b5 b6 b7 : byte) : bool :=
+  negb (N.land (N.lor (le32 b0 b1 b2 b3) (le32 b4 b5 b6 b7)) 0x80808080 =? 0).
 Fixpoint skip_ascii8 (p : list byte) : list byte :=
   match p with
   | b0 :: b1 :: b2 :: b3 :: b4 :: b5 :: b6 :: b7 :: r =>
-    if ascii b0 && ascii b1 && ascii b2 && ascii b3 && ascii b4 && ascii b5 && ascii b6 && ascii b7
-    then skip_ascii8 r else p
+    if has_high8 b0 b1 b2 b3 b4 b5 b6 b7 then p else skip_ascii8 r
   | _ => p
   end.
 
